@@ -33,6 +33,7 @@ fn families(t: Tier) -> Vec<(&'static str, u64)> {
         ("dag-exact", t.n(15_000, 1_200_000)),
         ("dag-smooth", t.n(10_000, 900_000)),
         ("readme", t.n(800, 30_000)),
+        ("conv-graphs", t.n(800, 40_000)),
         ("fanin", t.n(300, 10_000)),
         // every single operation of C02's grids as the whole program (its adjoint IS the seed)
         ("op-unary", t.n(3_000, 200_000)),
